@@ -57,5 +57,7 @@ with open(os.path.join(out, "RESULTS.md"), "w") as f:
         for i, v in r["verdicts"].items():
             def one(s):
                 s = " ".join(s.split()); return (s[:70] + "…") if len(s) > 70 else s
-            f.write(f"| {r['n']} | {i} | {r['file'].split('/src/')[-1]} | `{one(r['old']).replace('|','¦')}` → `{one(r['new']).replace('|','¦')}` | {v['status']} | {v['detail'].replace('|','¦')[:160]} |\n")
+            note = next((m.get("note", "") for m in muts if m["n"] == r["n"]), "")
+            status = v["status"] + (" (" + note + ")" if note and v["status"] == "MISSED" else "")
+            f.write(f"| {r['n']} | {i} | {r['file'].split('/src/')[-1]} | `{one(r['old']).replace('|','¦')}` → `{one(r['new']).replace('|','¦')}` | {status} | {v['detail'].replace('|','¦')[:160]} |\n")
 print("written", os.path.join(out, "RESULTS.md"))
